@@ -63,6 +63,7 @@ def run(ctx):
             K = max(1, min(3, n - 1))     # fewer steps than distinct singular values: exact CG has not terminated yet, so the float run is comparable
             X, info = solver.CGNEQSolver(tol=0.0, max_iter=K).compute(An)
             hist = [float(v) for v in info['residual_norms']]
+            if not cm.all_finite(X, hist): viol('C13:cgne:nonfinite', 'CGNE returned NaN / inf', inp)
             if any(hist[i + 1] > hist[i] * (1 + 1e-9) + 1e-14 for i in range(len(hist) - 1)): viol('C13:cgne:monotone', 'CGNE residuals increase', inp, hist)
             if hist and abs(hist[-1] - true_res(X, An, n)) > 1e-9 * max(1, hist[-1]) + 1e-13: viol('C13:cgne:history', 'last CGNE residual is not the residual of the returned X', inp, hist[-1], true_res(X, An, n))
             for tol in ((1e-6,) if ctx.quick() else (1e-3, 1e-6, 1e-8)):
@@ -104,6 +105,7 @@ def run(ctx):
                     except Exception as e: viol('C13:rsp:raises', f'RSP raised {e!r}', inp); continue
                     finally: np.random.randn = orig_randn
                     Pi = sketch_from(draws[:4])
+                    if not cm.all_finite(X, info['residual_norms']): viol('C13:rsp:nonfinite', 'RSP returned NaN / inf', inp); continue
                     if info['residual_norms']:
                         last = fro(Pi - utils.quat_matmat(X, utils.quat_matmat(An, Pi))) / fro(Pi)
                         if abs(last - info['residual_norms'][-1]) > 1e-9 * max(1, last): viol('C13:rsp:history', 'last RSP residual is not the residual of the returned X', inp, info['residual_norms'][-1], last)
